@@ -19,7 +19,7 @@ import dlib  # noqa: E402
 
 logging.disable(logging.CRITICAL)
 
-from traits.api import (Any, Callable, DelegatesTo, Dict, Either, Enum, Event, Expression, Float, HasTraits,  # noqa
+from traits.api import (Any, CInt, CStr, CFloat, PrefixList, Callable, DelegatesTo, Dict, Either, Enum, Event, Expression, Float, HasTraits,  # noqa
                         Instance, Int, List, Map, Property, PrototypedFrom, Range, ReadOnly, Set, Str, Tuple, Type,
                         TraitError, Union)
 
@@ -40,6 +40,14 @@ def rt(*parts):
 PFX_NAME = rt("v", "al", "ue")          # DelegatesTo(..., prefix='value')     -> delegate_attr_name_prefix
 PFX_WILD = rt("p", "re", "_*")          # 'pre_*'                               -> delegate_attr_name_prefix_name
 PFX_SET = rt("ot", "her")               # used by a delegate that is also assigned through
+
+
+MAP_KEYS = [rt("k", "ey", "0"), rt("k", "ey", "1")]
+MAP_OBJS = [V(100), V(101)]
+MAP_TABLE = {MAP_KEYS[0]: MAP_OBJS[0], MAP_KEYS[1]: MAP_OBJS[1]}
+ENUM_OBJS = [V(200), V(201), V(202)]
+ENUM_VALUES = list(ENUM_OBJS)
+PREFIX_CHOICES = [rt("al", "pha"), rt("be", "ta")]
 
 
 class Leaf(HasTraits):
@@ -88,6 +96,24 @@ class Node(HasTraits):
     same = DelegatesTo("leaf")
     prop = Property(Tuple(Any(), Float()))
     xdef = Expression()
+    # coercing casts (new objects from mortal inputs), mapped trait (shadow attribute), bounded list of tuples,
+    # enumerations of objects; static change handlers on `a`, `tup`, `lst` exercise call_notifiers with mortal objects
+    ci = CInt()
+    cs = CStr()
+    cf = CFloat()
+    mp = Map(MAP_TABLE)
+    enum = Enum(ENUM_VALUES)
+    lb = List(Tuple(Any(), Float()), maxlen=2)
+    pl = PrefixList(PREFIX_CHOICES)
+
+    def _a_changed(self, old, new):
+        pass
+
+    def _tup_changed(self, old, new):
+        pass
+
+    def _lst_items_changed(self, event):
+        pass
 
     def _get_prop(self):
         return self.__dict__.get("_prop", None)
@@ -131,6 +157,14 @@ def build(spec, env):
         return Leaf
     if k == "fn":
         return len
+    if k == "mapkey":
+        return MAP_KEYS[spec[1]]
+    if k == "enum":
+        return ENUM_OBJS[spec[1]]
+    if k == "digits":
+        return rt("1234567890", "1234567890", str(spec[1]))       # a run-time string that CInt / CFloat convert
+    if k == "pfx":
+        return rt(["al", "be", "zz"][spec[1]], "")                 # unique prefix of a PrefixList choice / no match
     raise ValueError(spec)
 
 
@@ -174,7 +208,7 @@ def run_case(ci, case, progress):
     env = dict(pool=[V(i) for i in range(4)], strs=[rt("s", "tr", str(i)) for i in range(2)],
                bigs=[2 ** 70 + i for i in range(2)])
     o = Node()
-    measured = env["pool"] + env["strs"] + env["bigs"] + [PFX_NAME, PFX_WILD]
+    measured = env["pool"] + env["strs"] + env["bigs"] + [PFX_NAME, PFX_WILD] + MAP_KEYS + MAP_OBJS + ENUM_OBJS[:2]
     mids = [id(x) for x in measured]
     out = []
     getrc = sys.getrefcount
@@ -186,13 +220,26 @@ def run_case(ci, case, progress):
             progress.flush()
         kind = op[0]
         name = op[1] if len(op) > 1 and isinstance(op[1], str) else None
-        arg = build(op[2], env) if kind in ("set", "validate", "append", "setitem", "add", "prime") else None
-        ct = o.trait(name) if kind in ("validate", "default") else None
+        arg = build(op[2], env) if kind in ("set", "validate", "vkeep", "append", "setitem", "add", "prime") else None
+        ct = o.trait(name) if kind in ("validate", "vkeep", "default") else None
+        kept = None
+        items_obs = None
+        if kind == "vkeep":
+            # what each item validator does on its own (independent of the loop under test)
+            items_obs = []
+            for it, x in zip(ct.handler.types, arg):
+                try:
+                    y = it.validate(o, name, x)
+                    items_obs.append("same" if y is x else "conv")
+                except Exception:
+                    items_obs.append("fail")
+                y = None
         # containers stored by an operation may be the very objects passed in (a tuple that needs no coercion is
         # stored as it is): count the slots of every live container once — reachable from the state or from `arg`
         gc.collect()          # TraitList/Dict/Set objects sit in reference cycles (bound-method notifiers)
         hb = held_counts([o.__dict__, o.leaf.__dict__, [arg]], mids)
         before = [getrc(x) for x in measured]
+        tv_before = getrc(arg) if kind == "vkeep" else 0
         res = "Ok"
         try:
             if kind == "set":
@@ -203,6 +250,8 @@ def run_case(ci, case, progress):
                 delattr(o, name)
             elif kind == "validate":
                 ct.validate(o, name, arg)
+            elif kind == "vkeep":
+                kept = ct.validate(o, name, arg)
             elif kind == "default":
                 ct.default_value_for(o, name)
             elif kind == "append":
@@ -224,9 +273,25 @@ def run_case(ci, case, progress):
             e = None
         gc.collect()
         after = [getrc(x) for x in measured]       # `arg` is still held, as it was for `before`
-        ha = held_counts([o.__dict__, o.leaf.__dict__, [arg]], mids)
+        ha = held_counts([o.__dict__, o.leaf.__dict__, [arg], [kept]], mids)
+        step = dict(out=res, rows=[[k, after[k] - before[k], hb[mids[k]], ha[mids[k]]] for k in range(len(measured))])
+        if kind == "vkeep":
+            def atom_of(x, i):
+                return mids.index(id(x)) if id(x) in mids else -10 - i
+            tv_delta = getrc(arg) - tv_before
+            rk = 2 if kept is None else (1 if kept is arg else 0)
+            items = []
+            for i, x in enumerate(arg):
+                b = atom_of(x, i)
+                if items_obs[i] == "conv":
+                    w = atom_of(kept[i], i) if (rk == 0 and i < len(kept) and id(kept[i]) in mids) else -30 - i
+                    items.append([b, "conv", w])
+                else:
+                    items.append([b, items_obs[i], 0])
+            step["tuple"] = dict(items=items, kind=rk, tv_delta=tv_delta)
         arg = None
-        out.append(dict(out=res, rows=[[k, after[k] - before[k], hb[mids[k]], ha[mids[k]]] for k in range(len(measured))]))
+        kept = None
+        out.append(step)
     return out
 
 
